@@ -7,14 +7,25 @@ import Driver.Pod
 import Driver.Disc
 import Driver.Errs
 import Driver.Seeds
+import Driver.ListView
 
-def dispatch (st : Unit) (line : String) : Unit × String :=
+structure DState where
+  lv : Driver.LvD.St := none
+
+def stateless (toks : List String) : Option String :=
+  Driver.Tok.handle toks <|> Driver.PodD.handle toks <|> Driver.DiscD.handle toks <|>
+  Driver.ErrsD.handle toks <|> Driver.SeedsD.handle toks
+
+def dispatch (st : DState) (line : String) : DState × String :=
   let toks := (line.trimAscii.toString.splitOn " ").filter (· ≠ "")
-  match (Driver.Tok.handle toks <|> Driver.PodD.handle toks <|> Driver.DiscD.handle toks <|> Driver.ErrsD.handle toks <|> Driver.SeedsD.handle toks) with
+  match stateless toks with
   | some s => (st, s)
-  | none => (st, "bad-op")
+  | none =>
+    match Driver.LvD.handle st.lv toks with
+    | some (lv', s) => ({ st with lv := lv' }, s)
+    | none => (st, "bad-op")
 
-partial def loop (h : IO.FS.Stream) (out : IO.FS.Stream) (st : Unit) : IO Unit := do
+partial def loop (h : IO.FS.Stream) (out : IO.FS.Stream) (st : DState) : IO Unit := do
   let line ← h.getLine
   if line.isEmpty then return ()
   let (st', o) := dispatch st line
@@ -24,4 +35,4 @@ partial def loop (h : IO.FS.Stream) (out : IO.FS.Stream) (st : Unit) : IO Unit :
 def main : IO Unit := do
   let stdin ← IO.getStdin
   let stdout ← IO.getStdout
-  loop stdin stdout ()
+  loop stdin stdout {}
